@@ -99,3 +99,34 @@ Proof.
   split; [vm_compute; discriminate|]. split; [vm_compute; discriminate|].
   intros e He. vm_compute in He. discriminate.
 Qed.
+
+(** audit B: the hypotheses of C06_fault_handler_is_translation_inv hold TOGETHER at a state with a live copy-on-write
+    page ([s1]: page PG shows the data frame 0x130 read-only + CoW), i.e. on the recoverable path, not only at an
+    unmapped page: the invariant holds for [s1] (by C04's map_ok from the boot state), [cow_pre] is [Some _], and the
+    frame it shows is backed, is no page table and is not in the allocator's hands. *)
+Example C06_fault_handler_is_translation_inv_real_input :
+  exists own,
+    PtMap.Inv s1 0x100 0x100 own /\ ADDR < two64 /\ T.mem_w64 s1 /\
+    hw_idx (page_from_addr ADDR) 0 <> 511 /\ ~ PtTheorems.same_page (page_from_addr ADDR) temp_page /\
+    PtFault.cow_pre s1 0x100 (page_from_addr ADDR) = Some 0x130201 /\
+    (forall e, PtFault.cow_pre s1 0x100 (page_from_addr ADDR) = Some e ->
+       backed s1 (hw_frame e) = true /\ own (hw_frame e) = None /\ ~ In (hw_frame e) (orc s1)).
+Proof.
+  assert (HI : PtMap.Inv boot 0x100 0x100 (PtInit.own_root 0x100))
+    by apply C06_fault_handler_is_translation_inv_nonvacuous.
+  assert (H511 : hw_idx PG 0 <> 511) by (vm_compute; discriminate).
+  destruct (PtTheorems.map_ok boot 0x100 0x100 (PtInit.own_root 0x100) PG 0x130 CoW_flags HI H511 eq_refl)
+    as (s' & err & own' & Hrun & HI' & _ & _ & _ & _ & _ & _ & (n & Horc & Hown) & _).
+  assert (Es : s1 = s') by (unfold s1; rewrite Hrun; reflexivity).
+  exists own'. rewrite Es. split; [exact HI'|]. rewrite <- Es.
+  split; [reflexivity|]. split; [exact s1_w64|].
+  split; [vm_compute; discriminate|]. split; [vm_compute; discriminate|].
+  assert (Hc : PtFault.cow_pre s1 0x100 (page_from_addr ADDR) = Some 0x130201) by (vm_compute; reflexivity).
+  split; [exact Hc|].
+  intros e He. rewrite Hc in He. injection He as <-.
+  change (hw_frame 0x130201) with 0x130.
+  split; [vm_compute; reflexivity|]. split.
+  - destruct (Hown 0x130) as [-> | (_ & Hin & _)]; [reflexivity|].
+    exfalso. apply PtMap.in_firstn in Hin. cbn in Hin. intuition discriminate.
+  - vm_compute. intuition discriminate.
+Qed.
